@@ -124,7 +124,7 @@ def _optimizer(T, method, Nv, nl_kinds, lin_kinds, mask, options, max_iter, extr
     if T.symbolic:
         sh = T.shadow([MS, MU], extra)
         cls = T.under_contract(sh, MS, "SciPyOptimizer")
-        for q in ("_initialize_bounds", "_initialize_constraints", "_initialize_constraints_dict", "_initialize_constraints_object", "_fun", "_jac", "_parse_options", "start"):
+        for q in ("__init__", "_initialize_bounds", "_initialize_constraints", "_initialize_constraints_dict", "_initialize_constraints_object", "_fun", "_jac", "_parse_options", "start"):
             T.under_contract(sh, MS, "SciPyOptimizer." + q)
         T.under_contract(sh, MU, "get_masked_linear_constraints")
         T.under_contract(sh, MU, "NormalizedConstraints")
@@ -145,7 +145,7 @@ def _optimizer(T, method, Nv, nl_kinds, lin_kinds, mask, options, max_iter, extr
         variables=types.SimpleNamespace(lower_bounds=vlb, upper_bounds=vub, mask=marr, initial_values=x0, types=None),
         nonlinear_constraints=types.SimpleNamespace(lower_bounds=nlb, upper_bounds=nub) if K else None,
         linear_constraints=types.SimpleNamespace(coefficients=A, lower_bounds=llb, upper_bounds=lub) if L else None,
-        optimizer=types.SimpleNamespace(speculative=False, split_evaluations=False, options=options, max_iterations=max_iter, output_dir=None, tolerance=1e-3, parallel=False),
+        optimizer=types.SimpleNamespace(method=method, speculative=False, split_evaluations=False, options=options, max_iterations=max_iter, output_dir=None, tolerance=1e-3, parallel=False),
     )
     opt = object.__new__(cls)
     opt._config, opt._method, opt._parallel = cfg, method, False
@@ -161,7 +161,10 @@ def cases_problem(tier):
             combos += [(a, b) for a in itertools.product(KINDS, repeat=2) for b in itertools.product(KINDS, repeat=1)][:40]
         for nl, lin in combos:
             for mask in (None, [True, False, True]):
-                yield "%s/nl=%s/lin=%s/mask=%s" % (method, ",".join(nl) or "-", ",".join(lin) or "-", mask), {"method": method, "nl": list(nl), "lin": list(lin), "mask": mask}
+                c = {"method": method, "nl": list(nl), "lin": list(lin), "mask": mask}
+                if method == "cobyla":
+                    c["vb"] = "none"  # COBYLA takes no variable bounds: with finite ones the constructor rejects the configuration
+                yield "%s/nl=%s/lin=%s/mask=%s" % (method, ",".join(nl) or "-", ",".join(lin) or "-", mask), c
         # variable bounds with any mix of finite and infinite entries
         for vb in ("lower-only", "upper-only", "mixed", "none"):
             for mask in (None, [True, False, True]):
@@ -179,8 +182,10 @@ def scn_problem(T, case):
         def __init__(self, kind, *a, **kw):
             self.kind, self.a, self.kw = kind, a, kw
 
+    handed = []
     stubs = {(MS, "Bounds"): lambda lb, ub: Rec("Bounds", lb, ub), (MS, "LinearConstraint"): lambda A, lb, ub: Rec("Linear", A, lb, ub),
-             (MS, "NonlinearConstraint"): lambda **kw: Rec("Nonlinear", **kw)}
+             (MS, "NonlinearConstraint"): lambda **kw: Rec("Nonlinear", **kw),
+             (MS, "minimize"): lambda **kw: handed.append(kw), (MS, "differential_evolution"): lambda **kw: handed.append(kw)}
     if not T.symbolic:
         import ropt.plugins.optimizer.scipy as real
 
@@ -199,10 +204,19 @@ def scn_problem(T, case):
             g = T.np.array([[gji(*[v[i] for i in range(len(free))]) for gji in row] for row in Gs]) if return_gradients else T.np.array([])
             return f, g
 
-        opt._optimizer_callback = callback
-        bounds = opt._initialize_bounds()
-        cons = opt._initialize_constraints()
-        opt._constraints = cons
+        # the object is made by its real constructor and the problem is observed where the statement puts it: in the arguments that
+        # start() passes to the SciPy entry point
+        try:
+            opt = type(opt)(cfg, callback)
+        except NotImplementedError:
+            T.prove("C08.problem.construction_rejects_only_what_the_method_cannot_take",
+                    (method == "cobyla" and (any(k in ("eq", "two") for k in list(nl_kinds) + list(lin_kinds)) or case.get("vb", "finite") != "none"))
+                    or (method == "differential_evolution" and case.get("vb") == "none"))
+            return
+        opt.start(x0)
+        T.prove("C08.problem.exactly_one_backend_call", len(handed) == 1)
+        bounds, cons = handed[0].get("bounds"), handed[0].get("constraints")
+        T.prove("C08.problem.starting_point_is_the_free_part_of_the_initial_values", T.same(handed[0]["x0"], T.np.array([x0[i] for i in free])))
     finally:
         if not T.symbolic:
             for k, v in saved.items():
@@ -286,6 +300,8 @@ def cases_options(tier):
         for options in ("none", "empty", "dict", "list"):
             for mi in (None, 7):
                 yield "%s/options=%s/max_iterations=%s" % (method, options, mi), {"method": method, "options": options, "mi": mi}
+                if options != "list":
+                    yield "%s/options=%s/max_iterations=%s/validated-config" % (method, options, mi), {"method": method, "options": options, "mi": mi, "validated": True}
 
 
 def scn_options(T, case):
@@ -301,6 +317,21 @@ def scn_options(T, case):
             setattr(real, k[1], v)
     try:
         opt, cfg, parts = _optimizer(T, method, 2, [], [], None, options, mi, stubs if T.symbolic else None)
+        if case.get("validated"):
+            # the optimizer section as the REAL OptimizerConfig validation produces it from the user's dictionary (the options
+            # given as None, {} or a dict are part of the quantifier of C08: what is validated must still say what the user said)
+            MOC = "ropt.config.enopt._optimizer_config"
+            if T.symbolic:
+                shc = T.shadow([MOC])
+                ocls = T.under_contract(shc, MOC, "OptimizerConfig")
+            else:
+                ocls = T.func(MOC, "OptimizerConfig")
+            d = {"method": method, "tolerance": 1e-3}
+            if mi is not None:
+                d["max_iterations"] = mi
+            if case["options"] != "absent":
+                d["options"] = options
+            cfg.optimizer = ocls.model_validate(d)
         opt._bounds = opt._initialize_bounds()
         opt._constraints = []
         opt._normalized_constraints = None
